@@ -422,7 +422,10 @@ def run_shard(spec, ctx, acc):
             strat = refuse_values(t).map(lambda v, t=t: {"kind": "refuse", "t": t, "val": v})
             core.hyp_search(acc, strat, check, seed=sd("refuse", t), max_examples=40 * n, known=known)
     elif part == 2:
-        cks = st.binary(min_size=3, max_size=300).map(lambda x: {"kind": "checksum", "x": x})
+        cks = st.one_of(st.binary(min_size=3, max_size=300),
+                        st.tuples(st.integers(4000, 9000), st.integers(0, 255), st.integers(1, 255)).map(
+                            lambda t: __import__("hashlib").shake_256(bytes(t[1:])).digest(t[0]))).map(
+            lambda x: {"kind": "checksum", "x": x})
         core.hyp_search(acc, cks, check, seed=sd("ck"), max_examples=1500 * n, known=known)
         good = st.binary(min_size=4, max_size=80).map(lambda b: b"\xb5\x62" + b + codec.fletcher8(b))
         anyb = st.binary(min_size=4, max_size=80)
